@@ -60,8 +60,17 @@ def run(ctx):
     mix = m.fn(MM + ".addValue")
 
     def head(fn):
+        import copy
         for st in fn.node.body:
             if isinstance(st, ast.Try):
+                st = copy.deepcopy(st)
+                # the name an exception is bound to is not behaviour
+                for h in st.handlers:
+                    if h.name:
+                        for n in ast.walk(h):
+                            if isinstance(n, ast.Name) and n.id == h.name:
+                                n.id = "<exc>"
+                        h.name = "<exc>"
                 return ast.dump(st, annotate_fields=False)
         return None
     run.check(head(base) is not None and head(base) == head(mix), "C14.R2",
